@@ -98,7 +98,8 @@ def run_one(m, tier, keep, skip_tests):
         if p.returncode != 0:
             res.update(status='PATCH-FAILED', detail=(p.stdout + p.stderr)[-400:])
             return res
-        env = dict(os.environ, PYTHONDONTWRITEBYTECODE='1')
+        env = dict(os.environ, PYTHONDONTWRITEBYTECODE='1', TMPDIR=os.path.join(scratch, '.tmp'))   # the suite leaves files in TMPDIR
+        os.makedirs(env['TMPDIR'], exist_ok=True)
         env.pop('CARDUTIL_VERIF', None)
         if not skip_tests:
             t = subprocess.run([PY, '-B', '-m', 'pytest', '-q', '-x', '-p', 'no:cacheprovider', '--timeout=900'],
